@@ -377,7 +377,16 @@ func (c *Ctx) ErrChecked(rule, key string, fn *ssa.Function, calls []ssa.Instruc
 			c.Ob(rule, k, false, InstrPos(call), "error result is never used: "+what)
 			continue
 		}
-		cut := PassEdges(fn, ErrNil(e))
+		// edges on which the error is nil, or is one specific sentinel that the code handles on purpose
+		sentinel := Cmp(func(v ssa.Value) bool { return SameVar(v, e) }, func(v ssa.Value) bool {
+			u, ok := v.(*ssa.UnOp)
+			if !ok || u.Op != token.MUL {
+				return false
+			}
+			_, isG := u.X.(*ssa.Global)
+			return isG
+		}, token.EQL)
+		cut := MergeEdges(PassEdges(fn, ErrNil(e)), PassEdges(fn, sentinel))
 		hit, path := Search(After(call), func(in ssa.Instruction) bool {
 			r, ok := in.(*ssa.Return)
 			if !ok {
